@@ -20,6 +20,7 @@ import (
 
 func genC12(t *rapid.T) bson.D {
 	cfg := gen.Wide
+	cfg.Extremes = true
 	a := cfg.Value(3, false).Draw(t, "a")
 	var b, c interface{}
 	switch rapid.IntRange(0, 3).Draw(t, "bm") {
